@@ -93,6 +93,15 @@ func verifListing(code []ByteCode, n int) []VerifInstr {
 	return out
 }
 
+// VerifCustomDiceOperand exposes what a dice.custom instruction carries: the matched text, the groups and the payload.
+func VerifCustomDiceOperand(operand any) (text string, groups []string, payload any, ok bool) {
+	c, isC := operand.(*customDiceCompiled)
+	if !isC || c == nil {
+		return "", nil, nil, false
+	}
+	return c.text, append([]string{}, c.groups...), c.payload, true
+}
+
 // VerifCode returns the compiled program of the last Parse.
 func (ctx *Context) VerifCode() []VerifInstr { return verifListing(ctx.code, ctx.codeIndex) }
 
